@@ -539,8 +539,13 @@ func predCLI(c Case) (r Result) {
 			}
 		}
 	}
-	_, cerr, _ := libCompile(expr)
+	// one Search, the first thing the library does after whatever preceded this case: it is
+	// the call a long-lived program makes and whose value jpgo is expected to print
 	var lib libOut
+	if jerr == nil {
+		lib = libSearch(expr, doc)
+	}
+	_, cerr, _ := libCompile(expr)
 	expectOK := false
 	reason := ""
 	switch {
@@ -549,7 +554,6 @@ func predCLI(c Case) (r Result) {
 	case jerr != nil:
 		reason = "invalid-json-input"
 	default:
-		lib = libSearch(expr, doc)
 		if lib.Panic != nil {
 			r.Discard = "library-panics"
 			return
